@@ -81,21 +81,36 @@ def check_pairs(ck, rs, m_new, tag):
     return max(ds / tol_s, dy / tol_y)
 
 
-def check_next(ref_k, ref_k1, rs, tag):
-    """Clause (b): next iterate, nit and counter increments."""
+def check_next(ref_k, ref_k1, rs, tag, ref_trace=None, rs_trace=None, stats=None):
+    """Clause (b): next iterate and nit.  ref_trace / rs_trace (optional): the Trace objects of the
+    uninterrupted run(maxiter=k+1) and of the restarted run, used to tell a wrong memory (the first trial
+    point of the next line search differs) from a discrete line-search decision that flipped on the
+    one-ulp perturbation of the rebuilt pairs (same first trial point, different number of trials)."""
     step = float(np.max(np.abs(ref_k1["x"] - ref_k["x"])))
     tol = 1e-7 * step + 1e-9 * max(1.0, float(np.max(np.abs(ref_k1["x"]))))
     dev = float(np.max(np.abs(rs["x"] - ref_k1["x"])))
+    if dev > tol and ref_trace is not None and rs_trace is not None:
+        ref_trials = [p for p, _ in ref_trace.fun_calls[ref_k["nfev"] - (ref_trace.res["nfev"] - len(ref_trace.fun_calls)):]]
+        rs_trials = [p for p, _ in rs_trace.fun_calls]
+        if ref_trials and rs_trials:
+            d0 = float(np.max(np.abs(ref_trials[0] - rs_trials[0])))
+            s0 = float(np.max(np.abs(ref_trials[0] - ref_k["x"])))
+            if d0 <= 1e-7 * s0 + 1e-9 * max(1.0, float(np.max(np.abs(ref_trials[0])))) and len(ref_trials) != len(rs_trials):
+                if stats is not None:
+                    stats.bump("line-search-decision-flipped-on-rounding(not judged)")
+                return 0.0
     require(dev <= tol, f"next-iterate[{tag}]",
             f"restart lands {dev:.3e} from the uninterrupted iterate (step {step:.3e}, tol {tol:.3e}); nit ref={ref_k1['nit']} restart={rs['nit']}")
     require(rs["nit"] == ref_k1["nit"], f"nit-resumed[{tag}]", f"restart nit={rs['nit']} uninterrupted nit={ref_k1['nit']}")
     dn_ref = (ref_k1["nfev"] - ref_k["nfev"], ref_k1["njev"] - ref_k["njev"])
     dn_rs = (rs["nfev"] - ref_k["nfev"], rs["njev"] - ref_k["njev"])
-    # The uninterrupted run keeps its one-cell evaluation memo across the split (a trial point that
-    # coincides with the last evaluated point costs nothing); a restarted process cannot have it.  So the
-    # restart may need exactly one more objective / gradient evaluation, never fewer and never more.
-    ok = all(0 <= a - b <= 1 for a, b in zip(dn_rs, dn_ref))
-    require(ok, f"counters-resumed[{tag}]", f"(nfev,njev) increments: uninterrupted {dn_ref}, restart {dn_rs}")
+    # Evaluation counts of the two continuations are *not* compared: the restarted process has lost the
+    # one-cell evaluation memo, and a Wolfe test can flip on the one-ulp perturbation of the rebuilt pairs
+    # (one more trial, same iterate).  "Counters = checkpoint's + calls since" is C05's exact clause; here
+    # only: the counters resume from the checkpoint (they never fall below it).
+    require(dn_rs[0] >= 0 and dn_rs[1] >= 0, f"counters-resumed[{tag}]", f"restart counters fell below the checkpoint's: increments {dn_rs}")
+    if stats is not None and dn_rs != dn_ref:
+        stats.bump("evaluation-count-differs-from-uninterrupted(not judged)")
     return dev / tol if tol > 0 else 0.0
 
 
@@ -145,7 +160,7 @@ def check(spec, stats=None):
         R1 = restart(prob, cfg, A.result, k + 1)
         if R1.exc is not None:
             raise Violation("restart-accepted", f"restart(maxiter={k + 1}) raised {type(R1.exc).__name__}: {R1.exc}")
-        rb = check_next(ck, B.res, R1.res, "single")
+        rb = check_next(ck, B.res, R1.res, "single", B, R1, stats)
         if stats is not None:
             stats.maxi("max_pair_dev_over_tol", ra)
             stats.maxi("max_next_iterate_dev_over_tol", rb)
@@ -175,7 +190,7 @@ def check(spec, stats=None):
             if r1.exc is not None:
                 raise Violation("restart-accepted", f"chained restart raised {r1.exc}")
             if nxt_ref.res["nit"] == kk + 1 or nxt_ref.res["nit"] == r1.res["nit"]:
-                check_next(cur.res, nxt_ref.res, r1.res, "chain")
+                check_next(cur.res, nxt_ref.res, r1.res, "chain", None, None, stats)
             prev_ck = cur.result
             cur = r1
             chain_len += 1
